@@ -228,6 +228,14 @@ fn execute(cfg: &Cfg, harness: &Value, schedule: &[usize], scratch: &Scratch) ->
     let dir = scratch.sub("db");
     let mut findings: Vec<(String, String)> = vec![];
     let mut trace: Vec<String> = vec![];
+    // a harness may override options of the common configuration
+    let mut cfg = cfg.clone();
+    if let Some(o) = harness["options"].as_object() {
+        for (k, v) in o {
+            cfg.args.retain(|(a, _)| a != k);
+            cfg.args.push((k.clone(), v.as_str().unwrap_or("").to_string()));
+        }
+    }
     let kvs = match KeyValueStore::open(cfg.options(&dir)) {
         Ok(k) => Arc::new(k),
         Err(e) => {
@@ -252,6 +260,17 @@ fn execute(cfg: &Cfg, harness: &Value, schedule: &[usize], scratch: &Scratch) ->
                 set_step_mode(StepMode::StepNoWait);
                 kvs.memtable_thread().expect("pre flush");
                 set_step_mode(StepMode::Off);
+            }
+            "compactall" => {
+                for _ in 0..64 {
+                    set_step_mode(StepMode::StepNoWait);
+                    let before = lsmtk::verif::steps_completed();
+                    kvs.compaction_thread().expect("pre compaction");
+                    set_step_mode(StepMode::Off);
+                    if lsmtk::verif::steps_completed() == before {
+                        break;
+                    }
+                }
             }
             _ => panic!("bad pre op"),
         }
@@ -330,6 +349,20 @@ fn execute(cfg: &Cfg, harness: &Value, schedule: &[usize], scratch: &Scratch) ->
                             let r = kvs.compaction_thread().map_err(|e| e.to_string());
                             set_step_mode(StepMode::Off);
                             r?;
+                            Ok(None)
+                        }
+                        // compaction steps until idle, as one piece
+                        "compactall" => {
+                            for _ in 0..64 {
+                                set_step_mode(StepMode::StepNoWait);
+                                let before = lsmtk::verif::steps_completed();
+                                let r = kvs.compaction_thread().map_err(|e| e.to_string());
+                                set_step_mode(StepMode::Off);
+                                r?;
+                                if lsmtk::verif::steps_completed() == before {
+                                    break;
+                                }
+                            }
                             Ok(None)
                         }
                         "open-scan" => {
@@ -611,8 +644,29 @@ fn harnesses(prop: &str) -> Vec<Value> {
                 "threads": [[["put", "a", "1"], ["get", "a"]], [["put", "a", "2"], ["get", "a"]], [["flush"]], [["get", "a"], ["scan"]]]}));
             v.push(json!({"name": "del-put-vs-get-scan-vs-flush", "pre": [["put", "a", "0"], ["flush"]],
                 "threads": [[["del", "a"]], [["put", "a", "2"]], [["get", "a"], ["scan"]], [["flush"]]]}));
+            // a single put and a two-key batch enter the write path together (the order of their
+            // places in the wait list must be the order of their sequence numbers) || a scan
+            v.push(json!({"name": "put-vs-batch-vs-scan", "pre": [],
+                "threads": [[["put", "x", "1"]], [["batch", [["a", "1"], ["b", "1"]]]], [["scan"], ["scan"]]],
+                "batch_keys": ["a", "b"], "batch_value": "1"}));
+            // a scan whose pieces (memtables, tree version, timestamp) must belong together, while
+            // the key is overwritten, flushed and garbage-collected at the oldest level
+            v.push(json!({"name": "scan-vs-overwrite-flush-gc", "pre": [["put", "k", "old"], ["flush"], ["compactall"]],
+                // compaction always counts as mandatory: the overwritten key's file is merged into
+                // the oldest level (a garbage collection) as soon as it gets there
+                "options": {"l0-mandatory-compaction-threshold-files": "0"},
+                "threads": [[["scan"]], [["put", "k", "new-and-somewhat-longer-than-the-old-one"]], [["flush"]], [["compactall"]], [["get", "k"]]]}));
             v.push(json!({"name": "batch-vs-gets-vs-compaction", "pre": [["put", "a", "0"], ["flush"], ["put", "b", "0"], ["flush"]],
                 "threads": [[["batch", [["a", "1"], ["b", "1"]]]], [["get", "b"], ["get", "a"]], [["compact"], ["compact"]]]}));
+        }
+        "C03" => {
+            // the pieces of one scan (memtables, tree version, read timestamp) must belong together
+            v.push(json!({"name": "scan-vs-overwrite-flush-gc", "pre": [["put", "k", "old"], ["flush"], ["compactall"]],
+                "options": {"l0-mandatory-compaction-threshold-files": "0"},
+                "threads": [[["scan"]], [["put", "k", "new-and-somewhat-longer-than-the-old-one"]], [["flush"]], [["compactall"]], [["get", "k"]]]}));
+            v.push(json!({"name": "scan-vs-delete-flush-gc", "pre": [["put", "j", "0"], ["put", "k", "old"], ["flush"], ["compactall"]],
+                "options": {"l0-mandatory-compaction-threshold-files": "0"},
+                "threads": [[["scan"]], [["del", "k"]], [["flush"]], [["compactall"]]]}));
         }
         "C07" => {
             v.push(json!({"name": "reread-batch-in-flight-vs-rollover", "pre": [["put", "x", "0"]],
